@@ -11,6 +11,13 @@ Import ListNotations.
 (* MOut: the input left the model (an infinity among the numbers, a kernel raised, a cell the column type cannot hold) *)
 Inductive mres := MNan | MVal (q : Qc) | MOut.
 
+Definition mres_eqb (a b : mres) : bool :=
+  match a, b with
+  | MNan, MNan | MOut, MOut => true
+  | MVal x, MVal y => Qceqb x y
+  | _, _ => false
+  end.
+
 (* ---- BaseColumn._numbers *)
 Fixpoint m_numbers (cells : list val) : res (list fl) :=
   match cells with
